@@ -22,6 +22,7 @@ func init() {
 }
 
 func runC35(c *core.Ctx) {
+	checkVoteOnlyForWitnessedApprover(c, "C35.witnessed-approver", func(f *ssa.Function) bool { return f.Pkg != nil && f.Pkg.Pkg.Path() == ir.PkgPath(pkSCM) })
 	accessorPairs(c, "C35.accessor-keys", 10, pkSCM)
 	checkVoteTagsDistinct(c, "C35.ledger-tag")
 	checkQuitUnregisters(c, "C35.quit-unregisters")
